@@ -1887,6 +1887,19 @@ fn plan_keeper(w: &World, actor: &mut Actor, l: &Ledger) -> Vec<(Tx, String)> {
             }
         }
     }
+    if rng.chance(1, 12) {
+        // anyone may send the (signer-less) migration of the legacy reward-authority space; pools created by this program
+        // version are born migrated, so it must be refused and change nothing - whatever control flags the pool carries
+        let all = decode::pools(l);
+        if !all.is_empty() {
+            let flagged: Vec<&(Pubkey, decode::Pool)> = all.iter().filter(|(_, p)| p.rewards[1].extension != [0u8; 32]).collect();
+            let k = if !flagged.is_empty() && rng.chance(2, 3) { flagged[rng.idx(flagged.len())].0 } else { all[rng.idx(all.len())].0 };
+            flow.push((
+                tx1(ix::mk(whirlpool::accounts::MigrateRepurposeRewardAuthoritySpace { whirlpool: k }, whirlpool::instruction::MigrateRepurposeRewardAuthoritySpace {})),
+                "migrate_repurpose_reward_authority_space".to_string(),
+            ));
+        }
+    }
     if !ps.is_empty() {
         let (k, p) = &ps[rng.idx(ps.len())];
         let sp = pi.keys.tick_spacing;
